@@ -32,7 +32,7 @@ REACH = [("yamlpath/commands/eyaml_rotate_keys.py", "main,validateargs", "eyaml_
          ("yamlpath/eyaml/eyamlprocessor.py", "_find_eyaml_paths,find_eyaml_paths,decrypt_eyaml,encrypt_eyaml,set_eyaml_value,is_eyaml_value", "EYAMLProcessor")]
 SIZES = {"quick": 800, "thorough": 10000}
 REQUIRED_COUNTERS = ["rotations", "secrets_checked", "anchored_secret_docs", "folded_secrets", "no_secret_files", "lookalikes_checked", "backup_runs",
-                     "multi_file_runs", "secrets_with_cr_lf_tab"]
+                     "multi_file_runs", "secrets_with_cr_lf_tab", "secrets_with_split_marker"]
 FAKE = os.path.join(VERIF_ROOT, "tools", "fake-eyaml")
 PLAIN = ["s3cret", "p@ss w0rd", "x", "multi word secret value", "0123456789" * 9, "a:b", "tr=ue",
          "line1\r\nline2\r\nline3", "cr\ronly", "two\nlines", "tab\tsep", "-----BEGIN KEY-----\r\nAAAA\r\n-----END KEY-----"]
@@ -76,7 +76,7 @@ class Gen:
         self.leaves = []          # (kind, plaintext) in document order of *definition sites*
         self.anchor_n = 0
         self.anchors = []         # (name, plaintext)
-        self.n_secret = self.n_look = self.n_folded = self.n_ctl = 0
+        self.n_secret = self.n_look = self.n_folded = self.n_ctl = self.n_marker_split = 0
 
     def leaf(self, indent, prefix):
         r = self.r
@@ -87,7 +87,7 @@ class Gen:
             ct = enc("old", pt)
             if any(c in pt for c in "\r\n\t"):
                 self.n_ctl += 1
-            style = r.choice(["plain", "plain", "dq", "folded", "spaced", "anchor"])
+            style = r.choice(["plain", "plain", "dq", "folded", "spaced", "anchor", "spaced-in-marker", "folded-in-marker"])
             self.n_secret += 1
             if style == "plain":
                 self.lines.append("%s%s %s" % (pad, prefix, ct))
@@ -96,9 +96,18 @@ class Gen:
             elif style == "spaced":
                 # interior whitespace: still "begins with ENC[" once whitespace is ignored
                 self.lines.append('%s%s "%s"' % (pad, prefix, ct[:14] + " " + ct[14:]))
-            elif style == "folded":
+            elif style == "spaced-in-marker":
+                # white space INSIDE the ENC[ marker itself: ignoring white space, the value still begins with ENC[
+                k = r.choice([1, 2, 3])
+                self.n_marker_split += 1
+                self.lines.append('%s%s "%s"' % (pad, prefix, ct[:k] + " " + ct[k:]))
+            elif style in ("folded", "folded-in-marker"):
                 self.n_folded += 1
-                chunks = [ct[i:i + 24] for i in range(0, len(ct), 24)]
+                first = 24
+                if style == "folded-in-marker":
+                    first = r.choice([1, 2, 3])      # the line break falls inside the marker
+                    self.n_marker_split += 1
+                chunks = [ct[:first]] + [ct[i:i + 24] for i in range(first, len(ct), 24)]
                 self.lines.append("%s%s >" % (pad, prefix))
                 for c in chunks:
                     self.lines.append("%s    %s" % (pad, c))
@@ -319,6 +328,8 @@ def check_file(ctx, case, fl, r, backup):
         ctx.counters["anchored_secret_docs"] = ctx.counters.get("anchored_secret_docs", 0) + 1
     if g.n_folded:
         ctx.counters["folded_secrets"] = ctx.counters.get("folded_secrets", 0) + g.n_folded
+    if g.n_marker_split:
+        ctx.counters["secrets_with_split_marker"] = ctx.counters.get("secrets_with_split_marker", 0) + g.n_marker_split
     if g.n_ctl:
         ctx.counters["secrets_with_cr_lf_tab"] = ctx.counters.get("secrets_with_cr_lf_tab", 0) + g.n_ctl
     # ---- backup -------------------------------------------------------------------------------------------------
